@@ -569,8 +569,21 @@ def _do_save(ctx, pool, fs, files, objs, kind, o):
     for dname in ('rdm_descriptors', 'pattern_descriptors', 'obs_descriptors', 'channel_descriptors', 'time_descriptors'):
         for v in getattr(obj, dname, {}).values():
             if v is None or any(x is None for x in v):
+                # None entries are not among the descriptor value types the statement quantifies over (the library refuses
+                # them for HDF5): no file is expected, but whatever the save attempt does, "saving does not change the
+                # in-memory object"
+                before = rec_any(obj)
+                try:
+                    obj.save(fs.new_path('h5'), file_type='hdf5', overwrite=True)
+                except Exception:
+                    pass
+                import gc as _gc
+                _gc.collect()
+                if diff_rec(before, rec_any(obj)):
+                    ctx.violation('fs_model.save_mutates', f'save:{kind}:hdf5:mutates-object',
+                                  f'saving a {kind} object that has None descriptor entries changed the in-memory object: {diff_rec(before, rec_any(obj))[0][1]}')
                 ctx.probe('object_with_missing_descriptor_entries_not_saved')
-                return        # None entries are not among the descriptor value types the statement quantifies over
+                return
     ft, ow, target = o['ft'], o['overwrite'], o['target']
     ext = 'h5' if ft == 'hdf5' else 'pkl'
     if o.get('ext') == 'other':
